@@ -1013,3 +1013,38 @@ file_AG09_DOV_PM=aws_server+'AUSGeoid/AUSGeoid09_DOV_PM_V1.01.tif'
 
 # GRS80 normal gravity flattening [Moritz, 2000 Section 4]
 grs80_ngf = 0.005302440112
+
+
+# ---------------------------------------------------------------------------
+# Verification hook (add-only, inactive by default).
+# Only when the environment variable GEODEPY_VERIF is "1": every later
+# attribute write to an Ellipsoid, Projection, Transformation or
+# TransformationSD object that is bound at module level above (or is the
+# tf_sd of such a Transformation) is recorded in _verif_writes as
+# (binding name, attribute, repr(old value), repr(new value)) before the
+# write is carried out. With the variable unset nothing below is executed.
+if __import__('os').environ.get('GEODEPY_VERIF') == '1':
+    _verif_writes = []
+    _verif_names = {}
+    _verif_classes = (Ellipsoid, Projection, Transformation, TransformationSD)
+
+    def _verif_register():
+        for name, obj in list(globals().items()):
+            if type(obj) in _verif_classes:
+                _verif_names.setdefault(id(obj), name)
+        for name, obj in list(globals().items()):
+            if type(obj) is Transformation and type(obj.tf_sd) is TransformationSD:
+                _verif_names.setdefault(id(obj.tf_sd), name + '.tf_sd')
+
+    def _verif_setattr(self, attr, value):
+        name = _verif_names.get(id(self))
+        if name is not None:
+            _verif_writes.append((name, attr,
+                                  repr(getattr(self, attr, '<unset>')),
+                                  repr(value)))
+        object.__setattr__(self, attr, value)
+
+    _verif_register()
+    for _verif_cls in _verif_classes:
+        _verif_cls.__setattr__ = _verif_setattr
+    del _verif_cls
